@@ -432,3 +432,61 @@ def r02_13(ctx, run, rule='R02.13'):
                       'is string content (RFC 8259 unescaped characters; raw control characters are a documented relaxation), so valid text is rejected', loc)
     else:
         run.proved(rule, fn, 'raw-bytes', f'{n} scanning path(s): an error is returned only at end of input, inside an escape, or after the closing quote', loc)
+
+
+def r02_16(ctx, run, rule='R02.16'):
+    """Both halves of a surrogate pair may be written in either form (\\uXXXX or \\u{XXXX}) independently: whether the four hex
+    digits of an escape are read after a `{` must be decided by the byte at *that* escape's own position."""
+    f = ctx.facts
+    fn = 'util::parse_escaped_string'
+    b = f.bodies.get(fn)
+    if b is None:
+        run.undecided(rule, fn, 'bracket-test', 'function not found (anchor lost)')
+        return
+    ps, _ = explore(b, max_paths=4000)
+    loc = f'{b.file}:{b.line}'
+
+    def bare(t):
+        t = deref_all(t)
+        while t[0] == 'cast' and len(t) > 2:
+            t = deref_all(t[2])
+        if t[0] == 'call':
+            return ('call', canon(t[1]), tuple(bare(a) for a in t[2]))
+        if t[0] == 'agg':
+            return ('agg', t[1], tuple(bare(a) for a in t[2]))
+        return t
+
+    def brace_tests(conds):
+        """slices whose byte 0 was compared with '{' on this path"""
+        out = []
+        for c in conds:
+            t = c[0]
+            if t[0] == 'bin' and t[1] in ('Eq', 'Ne') and any(const_of(x) == ord('{') for x in (t[2], t[3])):
+                t = t[2] if const_of(t[3]) == ord('{') else t[3]
+            elif not ((c[1] == 'eq' and c[2] == ord('{')) or (c[1] == 'ne' and isinstance(c[2], tuple) and ord('{') in c[2])):
+                continue
+            t = deref_all(t)
+            if t[0] == 'index' and const_of(t[2]) == 0:
+                out.append(bare(t[1]))
+        return out
+    n = 0
+    bad = None
+    for q in ps:
+        for e in q.calls():
+            if not (called(e[1], 'read_exact') and e[2]):
+                continue
+            D = bare(e[2][0])
+            tests = brace_tests(q.conds[:e[6]])
+            if not tests:
+                continue
+            n += 1
+            own = any(S == D or (D[0] == 'call' and D[1].endswith('index') and len(D[2]) == 2 and D[2][0] == S and agg_variant(D[2][1]) and D[2][1][1][1].endswith('RangeFrom')
+                                 and const_of(D[2][1][2][0]) == 1) for S in tests)
+            if not own and bad is None:
+                bad = f'the digits read from {show(e[2][0])[:70]} follow a `{{` test made on another position ({show(tests[-1])[:60]})'
+    if not n:
+        run.undecided(rule, fn, 'bracket-test', 'no hex-digit read preceded by a `{` test was found in this function (moved to a helper?): not decided', loc)
+    elif bad:
+        run.violation(rule, fn, 'bracket-test', bad + ': a pair whose two halves use different forms (\\uD83D\\u{DC8E}) is mis-read', loc)
+    else:
+        run.proved(rule, fn, 'bracket-test', f'{n} digit read(s), each after a `{{` test on the byte at its own position', loc)
